@@ -542,7 +542,7 @@ func init() {
 						for _, a := range dc.Args {
 							if o := identObj(info, a); o != nil {
 								for _, p := range paramObjs(u) {
-									if p == o && strings.Contains(p.Type().String(), "parsedFile") {
+									if p == o && strings.Contains(canonTypes(p.Type().String()), "parsedFile") {
 										fromInput = true
 									}
 								}
@@ -1316,7 +1316,7 @@ func init() {
 			for _, f := range fd.Type.Params.List {
 				for _, nm := range f.Names {
 					if sl, ok := info.Defs[nm].Type().Underlying().(*types.Slice); ok {
-						if n, ok := sl.Elem().(*types.Named); ok && n.Obj().Name() == "parsedFile" {
+						if n, ok := sl.Elem().(*types.Named); ok && n == c.LookupType("minifier.parsedFile") {
 							files = info.Defs[nm]
 						}
 					}
@@ -1335,7 +1335,7 @@ func init() {
 					return false
 				}
 				n, ok := sl.Elem().(*types.Named)
-				return ok && n.Obj().Name() == "parsedFile"
+				return ok && n == c.LookupType("minifier.parsedFile")
 			}
 			// private helpers of the package called (transitively, depth 3) from a node
 			type helperUse struct {
